@@ -56,8 +56,9 @@ func (P *Prog) typeID2(key string) int {
 	return id
 }
 
-func (P *Prog) typeIDByName(name string, pkg *types.Package) (int, bool) {
-	ptr := strings.HasPrefix(name, "*") || strings.HasPrefix(name, "(*")
+func (P *Prog) typeByName(name string, pkg *types.Package) (types.Type, bool) {
+	nptr := strings.Count(name, "*")
+	ptr := false
 	name = strings.Trim(name, "(*)")
 	var obj types.Object
 	if i := strings.Index(name, "."); i >= 0 && pkg != nil {
@@ -70,11 +71,20 @@ func (P *Prog) typeIDByName(name string, pkg *types.Package) (int, bool) {
 		obj = pkg.Scope().Lookup(name)
 	}
 	if obj == nil {
-		return 0, false
+		return nil, false
 	}
 	t := obj.Type()
-	if ptr {
+	_ = ptr
+	for i := 0; i < nptr; i++ {
 		t = types.NewPointer(t)
+	}
+	return t, true
+}
+
+func (P *Prog) typeIDByName(name string, pkg *types.Package) (int, bool) {
+	t, ok := P.typeByName(name, pkg)
+	if !ok {
+		return 0, false
 	}
 	return P.typeID(t), true
 }
